@@ -728,7 +728,8 @@ func (w *walker) stmt(s ast.Stmt, rest []ast.Stmt) (nodes []Node, stop bool) {
 			ns, _ := w.stmt(v.Init, nil)
 			out = append(out, ns...)
 		}
-		body := w.block(v.Body.List)
+		nb := &ast.BlockStmt{Lbrace: v.Body.Lbrace, List: normalizeContinue(v.Body.List), Rbrace: v.Body.Rbrace}
+		body := w.block(nb.List)
 		condEv := w.expr(v.Cond, nil, "", false, nil)
 		if len(condEv) > 0 {
 			return append(out, &Unknown{Pos: v.Pos(), Reason: "stream event in loop condition"}), false
@@ -759,18 +760,19 @@ func (w *walker) stmt(s ast.Stmt, rest []ast.Stmt) (nodes []Node, stop bool) {
 		} else {
 			lp.Cond = v.Cond
 		}
-		if containsBreak(v.Body) {
+		if containsBreak(nb) {
 			lp.Body = append(lp.Body, &Unknown{Pos: v.Pos(), Reason: "break/continue inside a stream loop"})
 		}
 		return append(out, lp), false
 	case *ast.RangeStmt:
-		body := w.block(v.Body.List)
+		nb := &ast.BlockStmt{Lbrace: v.Body.Lbrace, List: normalizeContinue(v.Body.List), Rbrace: v.Body.Rbrace}
+		body := w.block(nb.List)
 		pre := w.expr(v.X, nil, "", false, nil)
 		if !hasEvents(body) {
 			return pre, false
 		}
 		lp := &Loop{Pos: v.Pos(), Stmt: v, Body: body, Range: v.X, Fn: w.c}
-		if containsBreak(v.Body) {
+		if containsBreak(nb) {
 			lp.Body = append(lp.Body, &Unknown{Pos: v.Pos(), Reason: "break/continue inside a stream loop"})
 		}
 		return append(pre, lp), false
@@ -809,6 +811,63 @@ func stripBreak(body []ast.Stmt) []ast.Stmt {
 		}
 	}
 	return body
+}
+
+// normalizeContinue rewrites guard clauses of a loop body into structured form, so that the walk never
+// meets a `continue`:   if c { A; continue }; B   ==>   if c { A } else { B }
+// (also for the else arm, nested in B, and a trailing continue). The synthesised if statements share
+// the original condition and statement nodes, so type information stays valid.
+func normalizeContinue(list []ast.Stmt) []ast.Stmt {
+	endsInContinue := func(b *ast.BlockStmt) bool {
+		if b == nil || len(b.List) == 0 {
+			return false
+		}
+		br, ok := b.List[len(b.List)-1].(*ast.BranchStmt)
+		return ok && br.Tok == token.CONTINUE && br.Label == nil
+	}
+	dropLast := func(b *ast.BlockStmt) *ast.BlockStmt {
+		return &ast.BlockStmt{Lbrace: b.Lbrace, List: normalizeContinue(b.List[:len(b.List)-1]), Rbrace: b.Rbrace}
+	}
+	if n := len(list); n > 0 {
+		if br, ok := list[n-1].(*ast.BranchStmt); ok && br.Tok == token.CONTINUE && br.Label == nil {
+			return normalizeContinue(list[:n-1])
+		}
+	}
+	for i, s := range list {
+		ifs, ok := s.(*ast.IfStmt)
+		if !ok {
+			continue
+		}
+		rest := list[i+1:]
+		switch {
+		case endsInContinue(ifs.Body) && ifs.Else == nil:
+			ni := &ast.IfStmt{If: ifs.If, Init: ifs.Init, Cond: ifs.Cond, Body: dropLast(ifs.Body)}
+			if len(rest) > 0 {
+				ni.Else = &ast.BlockStmt{Lbrace: rest[0].Pos(), List: normalizeContinue(rest), Rbrace: rest[len(rest)-1].End()}
+			}
+			return append(append([]ast.Stmt{}, list[:i]...), ni)
+		case endsInContinue(ifs.Body) && ifs.Else != nil:
+			// if c { A; continue } else { E }; B  ==>  if c { A } else { E; B }
+			var eb []ast.Stmt
+			if blk, ok := ifs.Else.(*ast.BlockStmt); ok {
+				eb = append(eb, blk.List...)
+			} else {
+				eb = append(eb, ifs.Else)
+			}
+			eb = append(eb, rest...)
+			ni := &ast.IfStmt{If: ifs.If, Init: ifs.Init, Cond: ifs.Cond, Body: dropLast(ifs.Body),
+				Else: &ast.BlockStmt{Lbrace: ifs.Else.Pos(), List: normalizeContinue(eb), Rbrace: ifs.End()}}
+			return append(append([]ast.Stmt{}, list[:i]...), ni)
+		}
+		if eb, ok := ifs.Else.(*ast.BlockStmt); ok && endsInContinue(eb) {
+			// if c { A } else { E; continue }; B  ==>  if c { A; B } else { E }
+			tb := append(append([]ast.Stmt{}, ifs.Body.List...), rest...)
+			ni := &ast.IfStmt{If: ifs.If, Init: ifs.Init, Cond: ifs.Cond,
+				Body: &ast.BlockStmt{Lbrace: ifs.Body.Lbrace, List: normalizeContinue(tb), Rbrace: ifs.Body.Rbrace}, Else: dropLast(eb)}
+			return append(append([]ast.Stmt{}, list[:i]...), ni)
+		}
+	}
+	return list
 }
 
 // containsBreak: break/continue belonging to this loop (not to nested loops/switches for break).
